@@ -1,11 +1,1309 @@
-//! C18 — not implemented yet (stub).
-use crate::engine::Ctx;
-use serde_json::Value;
+//! C18 — a solved density profile is a stationary point and meets its specification.
+//!
+//! Parts:
+//! * `lattice`  — seed-independent problems (propane, butane, argon-like PeTS; T/Tc in
+//!   {0.6,0.7,0.8,0.9}; planar interface, LJ93 slit and spherical pore) on which success of the
+//!   default solver is *demanded*; the particle-number specifications are demanded to succeed
+//!   from the converged `ChemicalPotential` profile (current and perturbed amount).
+//! * `sampled`  — generated problems (planar interfaces and slit / cylindrical / spherical
+//!   pores) x 2-3 generated solver chains x optional particle-number specification; success is
+//!   not demanded, every reported success is checked.
+use crate::engine::{Ctx, Gen, Obs, PanicPolicy, PartCfg};
+use crate::model::*;
+use feos::core::{Components, Contributions, DensityInitialization, PhaseEquilibrium, ReferenceSystem, State};
+use feos_dft::adsorption::{ExternalPotential, Pore1D, PoreProfile1D, PoreSpecification};
+use feos_dft::interface::PlanarInterface;
+use feos_dft::{DFTProfile, DFTSolver, DFTSpecifications, Geometry, HelmholtzEnergyFunctional};
+use ndarray::{Array1, Array2, Axis as AxisNd, Ix1};
+use quantity::*;
+use serde::{Deserialize, Serialize};
+use serde_json::{json, Value};
+use std::collections::{BTreeMap, HashMap};
+use std::sync::{Arc, LazyLock, Mutex};
 
-pub fn run(_ctx: &Ctx) {
-    panic!("C18: check not implemented yet");
+pub type Profile = DFTProfile<Ix1, Model>;
+
+/// defect candidate F3: particle-number specifications cannot converge
+pub const F3: &str = "C18/particle-number-specification";
+/// defect candidate: Anderson mixing moves the bulk densities although the chemical potential is specified
+pub const DRIFT: &str = "C18/anderson-bulk-drift";
+
+/// AntiSymWhiteBear FMT: xi = n2v.n2v / n2^2 is 0/0 = NaN where the weighted density n2 is
+/// exactly 0 (FFT noise inside walls), src/hard_sphere/dft.rs:249-255
+pub const ANTISYM: &str = "C18/antisym-fmt-nan";
+
+/// signature of `ANTISYM`: the functional uses the anti-symmetrised White Bear FMT in its
+/// mixture / heterosegmented form and the profile has points at the potential cut-off
+pub fn antisym(p: &Profile) -> bool {
+    p.dft.contributions().any(|c| c.to_string().contains("AntiSymWB"))
+        && p.external_potential.iter().any(|v| *v + 1e-9 >= MAX_POTENTIAL)
 }
 
-pub fn replay(_ctx: &Ctx, _part: &str, _case: &Value) -> bool {
-    panic!("C18: check not implemented yet");
+/// cylindrical pores, heterosegmented chains: the bond integrals computed with the polar
+/// (Hankel-type) convolver ring around zero near the axis, so rho_projected and the converged
+/// density are negative there
+pub const POLAR: &str = "C18/polar-negative-density";
+
+/// reachable only once F3 is repaired: `Moles` with a heterosegmented functional
+pub const HETERO: &str = "C18/moles-heterosegmented";
+
+/// `MAX_POTENTIAL` of feos-dft/src/profile/mod.rs:18 (residual zeroed, density frozen there)
+pub const MAX_POTENTIAL: f64 = 50.0;
+
+// ---------------------------------------------------------------------------------------
+// Measured worst values (reported in the evidence; never consulted by the oracle)
+// ---------------------------------------------------------------------------------------
+pub static WORST: LazyLock<Mutex<BTreeMap<String, f64>>> = LazyLock::new(|| Mutex::new(BTreeMap::new()));
+
+pub fn worst(key: &str, v: f64) {
+    if v.is_finite() {
+        let mut w = WORST.lock().unwrap();
+        let e = w.entry(key.to_string()).or_insert(0.0);
+        if v > *e {
+            *e = v;
+        }
+    }
+}
+
+pub fn worst_json() -> Value {
+    json!(*WORST.lock().unwrap())
+}
+
+pub fn debug() -> bool {
+    static D: LazyLock<bool> = LazyLock::new(|| std::env::var("C18_DEBUG").is_ok());
+    *D
+}
+
+/// |u - v| relative to max(|u|,|v|)
+pub fn rel(u: f64, v: f64) -> f64 {
+    let s = u.abs().max(v.abs());
+    if s == 0.0 {
+        0.0
+    } else {
+        (u - v).abs() / s
+    }
+}
+
+// ---------------------------------------------------------------------------------------
+// Critical temperature of the functional itself (model::pure_tc floors the value with a
+// PC-SAFT-like estimate that lies above the true T_c of PeTS)
+// ---------------------------------------------------------------------------------------
+static TC: LazyLock<Mutex<HashMap<String, Option<f64>>>> = LazyLock::new(|| Mutex::new(HashMap::new()));
+
+pub fn dft_tc(spec: &ModelSpec, model: &Arc<Model>, i: usize) -> Result<f64, String> {
+    let key = format!("{:?}|{}|{:?}|{:?}", spec.family, spec.pure[i], spec.seg, spec.opts);
+    if let Some(t) = TC.lock().unwrap().get(&key) {
+        return t.ok_or_else(|| "no critical point".to_string());
+    }
+    let sub = if spec.n() == 1 { model.clone() } else { Arc::new(model.subset(&[i])) };
+    let r = std::panic::catch_unwind(std::panic::AssertUnwindSafe(|| {
+        State::critical_point(&sub, None, None, Default::default())
+    }));
+    let tc = match r {
+        Ok(Ok(cp)) => {
+            let t = cp.temperature.to_reduced();
+            let rho = cp.density.to_reduced();
+            if t.is_finite() && t > 1.0 && rho.is_finite() && rho > 0.0 {
+                Some(t)
+            } else {
+                None
+            }
+        }
+        _ => None,
+    };
+    TC.lock().unwrap().insert(key, tc);
+    tc.ok_or_else(|| "no critical point".to_string())
+}
+
+pub fn dft_t_scale(spec: &ModelSpec, model: &Arc<Model>, x: &[f64]) -> Result<f64, String> {
+    let mut t = 0.0;
+    for i in 0..spec.n() {
+        t += x[i] * dft_tc(spec, model, i)?;
+    }
+    Ok(t)
+}
+
+/// gc substances with rings cannot be used in DFT (`bond_integrals` panics with "Cycle in
+/// molecular structure detected!" by design) and long chains are expensive: map them to
+/// acyclic records with at most `max_seg` segments of the same pool.
+pub fn restrict_gc(spec: &mut ModelSpec, max_seg: usize) {
+    if spec.family != Family::GcPcSaftFunctional {
+        return;
+    }
+    let nseg = |r: &Value| r["segments"].as_array().map(|a| a.len()).unwrap_or(0);
+    let bad = |r: &Value| {
+        let ns = nseg(r);
+        ns > max_seg || r["bonds"].as_array().map(|b| b.len() >= ns).unwrap_or(false)
+    };
+    let pool: Vec<&Value> = POOLS.gc_substances.iter().filter(|r| !bad(r)).collect();
+    for (k, r) in spec.pure.iter_mut().enumerate() {
+        if bad(r) {
+            let ns = nseg(r);
+            *r = pool[(7 * ns + k) % pool.len()].clone();
+        }
+    }
+}
+
+pub const DFT_FAMILIES: [Family; 4] = [
+    Family::PcSaftFunctional,
+    Family::PetsFunctional,
+    Family::GcPcSaftFunctional,
+    Family::SaftVRQMieFunctional,
+];
+
+pub fn gen_dft_model(g: &mut Gen, families: &[Family], max_comp: usize) -> ModelSpec {
+    let fam = g.pick(families);
+    let mut spec = gen_model(g, &GenCfg { families: vec![fam], min_comp: 1, max_comp });
+    restrict_gc(&mut spec, 6);
+    spec
+}
+
+// ---------------------------------------------------------------------------------------
+// Solver chains
+// ---------------------------------------------------------------------------------------
+#[derive(Serialize, Deserialize, Clone, Debug, PartialEq)]
+pub enum StageSpec {
+    Picard { log: bool, damping: Option<f64>, max_iter: usize, tol: f64 },
+    Anderson { log: bool, damping: f64, mmax: usize, max_iter: usize, tol: f64 },
+    Newton { log: bool, max_iter: usize, gmres: usize, tol: f64 },
+}
+
+impl StageSpec {
+    pub fn tol(&self) -> f64 {
+        match self {
+            Self::Picard { tol, .. } | Self::Anderson { tol, .. } | Self::Newton { tol, .. } => *tol,
+        }
+    }
+    pub fn label(&self) -> String {
+        match self {
+            Self::Picard { log, damping, .. } => format!(
+                "picard{}{}",
+                if *log { "-log" } else { "" },
+                if damping.is_some() { "-damped" } else { "-linesearch" }
+            ),
+            Self::Anderson { log, .. } => format!("anderson{}", if *log { "-log" } else { "" }),
+            Self::Newton { log, .. } => format!("newton{}", if *log { "-log" } else { "" }),
+        }
+    }
+}
+
+/// An empty chain is the library's default solver (`solve(None)`:
+/// Anderson(log, 50 it, 1e-5) > Anderson(150 it, 1e-11), feos-dft/src/solver.rs:24-37,84-94).
+#[derive(Serialize, Deserialize, Clone, Debug, PartialEq)]
+pub struct ChainSpec {
+    pub stages: Vec<StageSpec>,
+}
+
+impl ChainSpec {
+    pub fn default_solver() -> Self {
+        Self { stages: vec![] }
+    }
+    pub fn build(&self) -> Option<DFTSolver> {
+        if self.stages.is_empty() {
+            return None;
+        }
+        let mut s = DFTSolver::new(None);
+        for st in &self.stages {
+            s = match *st {
+                StageSpec::Picard { log, damping, max_iter, tol } => {
+                    s.picard_iteration(Some(log), Some(max_iter), Some(tol), damping)
+                }
+                StageSpec::Anderson { log, damping, mmax, max_iter, tol } => {
+                    s.anderson_mixing(Some(log), Some(max_iter), Some(tol), Some(damping), Some(mmax))
+                }
+                StageSpec::Newton { log, max_iter, gmres, tol } => {
+                    s.newton(Some(log), Some(max_iter), Some(gmres), Some(tol))
+                }
+            };
+        }
+        Some(s)
+    }
+    pub fn tol_last(&self) -> f64 {
+        self.stages.last().map(|s| s.tol()).unwrap_or(1e-11)
+    }
+    pub fn has_anderson(&self) -> bool {
+        self.stages.is_empty() || self.stages.iter().any(|s| matches!(s, StageSpec::Anderson { .. }))
+    }
+    pub fn label(&self) -> String {
+        if self.stages.is_empty() {
+            "default".into()
+        } else {
+            self.stages.iter().map(|s| s.label()).collect::<Vec<_>>().join(">")
+        }
+    }
+    pub fn last_label(&self) -> String {
+        self.stages.last().map(|s| s.label()).unwrap_or_else(|| "anderson".into())
+    }
+}
+
+fn gen_stage(g: &mut Gen, last: bool) -> StageSpec {
+    let kind = g.index(3);
+    let tol = if last { g.log_range(1e-11, 1e-8) } else { g.log_range(1e-8, 1e-5) };
+    let log = g.bool(0.5);
+    // a short last stage: ends in NotConverged unless the stage before already got below `tol`
+    let short = last && g.bool(0.15);
+    match kind {
+        0 => StageSpec::Anderson {
+            log,
+            damping: g.range(0.05, 0.3),
+            mmax: g.int(5, 100) as usize,
+            max_iter: if short { g.int(1, 4) as usize } else { g.pick(&[150usize, 300, 60]) },
+            tol,
+        },
+        1 => StageSpec::Picard {
+            log,
+            damping: if g.bool(0.5) { Some(g.log_range(0.01, 0.3)) } else { None },
+            max_iter: if short { g.int(1, 4) as usize } else { g.pick(&[200usize, 300, 100]) },
+            tol,
+        },
+        _ => StageSpec::Newton {
+            log,
+            max_iter: if short { g.int(1, 3) as usize } else { g.pick(&[30usize, 15]) },
+            gmres: g.int(50, 300) as usize,
+            tol,
+        },
+    }
+}
+
+pub fn gen_chain(g: &mut Gen) -> ChainSpec {
+    let n = 1 + g.index(3);
+    ChainSpec {
+        stages: (0..n).map(|k| gen_stage(g, k + 1 == n)).collect(),
+    }
+}
+
+// ---------------------------------------------------------------------------------------
+// Problems
+// ---------------------------------------------------------------------------------------
+#[derive(Serialize, Deserialize, Clone, Debug, PartialEq)]
+pub enum InitSpec {
+    /// `from_tanh` with the critical temperature scaled by `tc_factor` (changes the width of the guess)
+    Tanh { tc_factor: f64 },
+    /// `from_pdgt`
+    Pdgt,
+    /// converged profile (default solver) at T*(1+dtau), rescaled with `set_density(.., true)`
+    Previous { dtau: f64 },
+}
+
+#[derive(Serialize, Deserialize, Clone, Debug, PartialEq)]
+pub enum WallSpec {
+    LJ93 { sigma_ss: f64, epsilon_k_ss: f64, rho_s: f64 },
+    SimpleLJ93 { sigma_ss: f64, epsilon_k_ss: f64 },
+    Steele { sigma_ss: f64, epsilon_k_ss: f64, rho_s: f64, xi: Option<f64> },
+    HardWall { sigma_ss: f64 },
+}
+
+impl WallSpec {
+    pub fn build(&self) -> ExternalPotential {
+        match *self {
+            Self::LJ93 { sigma_ss, epsilon_k_ss, rho_s } => ExternalPotential::LJ93 { sigma_ss, epsilon_k_ss, rho_s },
+            Self::SimpleLJ93 { sigma_ss, epsilon_k_ss } => ExternalPotential::SimpleLJ93 { sigma_ss, epsilon_k_ss },
+            Self::Steele { sigma_ss, epsilon_k_ss, rho_s, xi } => ExternalPotential::Steele { sigma_ss, epsilon_k_ss, rho_s, xi },
+            Self::HardWall { sigma_ss } => ExternalPotential::HardWall { sigma_ss },
+        }
+    }
+    pub fn label(&self) -> &'static str {
+        match self {
+            Self::LJ93 { .. } => "LJ93",
+            Self::SimpleLJ93 { .. } => "SimpleLJ93",
+            Self::Steele { .. } => "Steele",
+            Self::HardWall { .. } => "HardWall",
+        }
+    }
+}
+
+#[derive(Serialize, Deserialize, Clone, Copy, Debug, PartialEq)]
+pub enum GeomSpec {
+    Slit,
+    Cylinder,
+    Sphere,
+}
+
+impl GeomSpec {
+    pub fn build(&self) -> Geometry {
+        match self {
+            Self::Slit => Geometry::Cartesian,
+            Self::Cylinder => Geometry::Cylindrical,
+            Self::Sphere => Geometry::Spherical,
+        }
+    }
+}
+
+#[derive(Serialize, Deserialize, Clone, Debug, PartialEq)]
+pub struct PoreSpec {
+    pub geom: GeomSpec,
+    /// slit: wall-to-wall distance; cylinder / sphere: radius (Angstrom)
+    pub size: f64,
+    pub wall: WallSpec,
+    pub n_grid: usize,
+}
+
+impl PoreSpec {
+    pub fn build(&self) -> Pore1D {
+        Pore1D::new(self.geom.build(), self.size * ANGSTROM, self.wall.build(), Some(self.n_grid), None)
+    }
+    pub fn label(&self) -> String {
+        format!("{:?}/{}", self.geom, self.wall.label())
+    }
+}
+
+/// Wall generator. `SimpleLJ93` exists for the cartesian geometry only
+/// (`unimplemented!()` in adsorption/external_potential.rs:271-282, 443-454).
+pub fn gen_pore(g: &mut Gen, n_grids: &[usize]) -> PoreSpec {
+    let geom = g.pick(&[GeomSpec::Slit, GeomSpec::Cylinder, GeomSpec::Sphere]);
+    let nw = if geom == GeomSpec::Slit { 4 } else { 3 };
+    let sigma_ss = g.range(2.5, 4.0);
+    let wall = match g.index(nw) {
+        0 => WallSpec::LJ93 { sigma_ss, epsilon_k_ss: g.range(5.0, 120.0), rho_s: g.range(0.03, 0.12) },
+        1 => WallSpec::Steele {
+            sigma_ss,
+            epsilon_k_ss: g.range(10.0, 60.0),
+            rho_s: g.range(0.05, 0.12),
+            xi: if g.bool(0.3) { Some(g.range(0.5, 1.2)) } else { None },
+        },
+        2 => WallSpec::HardWall { sigma_ss },
+        _ => WallSpec::SimpleLJ93 { sigma_ss, epsilon_k_ss: g.range(50.0, 2000.0) },
+    };
+    let size = match geom {
+        GeomSpec::Slit => g.range(12.0, 60.0),
+        _ => g.range(8.0, 35.0),
+    };
+    PoreSpec { geom, size, wall, n_grid: g.pick(n_grids) }
+}
+
+#[derive(Serialize, Deserialize, Clone, Debug, PartialEq)]
+pub enum Problem {
+    Planar {
+        tau: f64,
+        n_grid: usize,
+        /// box length (Angstrom)
+        length: f64,
+        init: InitSpec,
+    },
+    Pore {
+        tau: f64,
+        /// bulk pressure / lowest pure-component saturation pressure
+        p_rel: f64,
+        x: Vec<f64>,
+        pore: PoreSpec,
+        /// initial density: None = library default (ideal gas in the external potential);
+        /// Some(f) = converged profile (default solver) at p_rel*f
+        prev: Option<f64>,
+    },
+}
+
+/// particle-number specification
+#[derive(Serialize, Deserialize, Clone, Debug, PartialEq)]
+pub enum PnSpec {
+    /// `Moles { moles: factor * moles_from_profile }` applied to the converged profile
+    Moles { factor: f64 },
+    /// `TotalMoles { total_moles: factor * total_moles_from_profile }` applied to the converged profile
+    TotalMoles { factor: f64 },
+    /// planar only: the `fix_equimolar_surface = true` route (`total_moles_from_profile` of the
+    /// initial profile), solved from the initial profile
+    Equimolar,
+}
+
+#[derive(Serialize, Deserialize, Clone, Debug)]
+pub struct Case {
+    pub spec: ModelSpec,
+    pub problem: Problem,
+    pub chains: Vec<ChainSpec>,
+    /// particle-number clause: specification and the chain used for it
+    pub pn: Option<(PnSpec, ChainSpec)>,
+    /// lattice cases demand success of every chain and of the particle-number solve
+    pub demand: bool,
+}
+
+const N_GRIDS: [usize; 8] = [512, 512, 256, 256, 1024, 1024, 512, 2048];
+
+pub fn decode(g: &mut Gen) -> Case {
+    let pore = g.bool(0.5);
+    let spec = gen_dft_model(g, &DFT_FAMILIES, if pore { 2 } else { 1 });
+    let hetero = spec.family == Family::GcPcSaftFunctional;
+    let tau = g.range(0.5, 0.95);
+    let problem = if pore {
+        Problem::Pore {
+            tau,
+            p_rel: g.range(0.05, 0.8),
+            x: g.simplex(spec.n(), 0.05),
+            pore: gen_pore(g, &N_GRIDS),
+            prev: if g.bool(0.25) { Some(g.range(0.7, 1.3)) } else { None },
+        }
+    } else {
+        let init = match g.index(if hetero { 4 } else { 5 }) {
+            0 | 1 => InitSpec::Tanh { tc_factor: 1.0 },
+            2 => InitSpec::Tanh { tc_factor: g.range(0.8, 1.4) },
+            3 => InitSpec::Previous { dtau: g.pick(&[-0.03, 0.03, -0.06]) },
+            _ => InitSpec::Pdgt,
+        };
+        Problem::Planar { tau, n_grid: g.pick(&N_GRIDS), length: g.range(60.0, 200.0), init }
+    };
+    let n_chains = 2 + g.index(2);
+    let mut chains = vec![];
+    for k in 0..n_chains {
+        if k == 0 && !g.bool(0.5) {
+            chains.push(ChainSpec::default_solver());
+        } else {
+            chains.push(gen_chain(g));
+        }
+    }
+    let pn = if g.bool(0.5) {
+        let f = g.pick(&[1.0, 1.002, 0.995, 1.02]);
+        let kind = match g.index(if pore { 2 } else { 3 }) {
+            0 => PnSpec::TotalMoles { factor: f },
+            1 => PnSpec::Moles { factor: f },
+            _ => PnSpec::Equimolar,
+        };
+        let chain = if g.bool(0.5) { gen_chain(g) } else { ChainSpec::default_solver() };
+        Some((kind, chain))
+    } else {
+        None
+    };
+    Case { spec, problem, chains, pn, demand: false }
+}
+
+// ---------------------------------------------------------------------------------------
+// Building problems
+// ---------------------------------------------------------------------------------------
+pub fn pure_vle(model: &Arc<Model>, t: f64) -> Result<PhaseEquilibrium<Model, 2>, String> {
+    let vle = PhaseEquilibrium::pure(model, t * KELVIN, None, Default::default()).map_err(|e| e.to_string())?;
+    let (rv, rl) = (vle.vapor().density.to_reduced(), vle.liquid().density.to_reduced());
+    if !(rv.is_finite() && rl.is_finite() && rv > 0.0 && rl > 1.02 * rv) {
+        return Err(format!("degenerate VLE rho_v={rv:e} rho_l={rl:e}"));
+    }
+    Ok(vle)
+}
+
+pub fn planar_init(
+    model: &Arc<Model>,
+    tc: f64,
+    tau: f64,
+    n_grid: usize,
+    length: f64,
+    init: &InitSpec,
+) -> Result<PlanarInterface<Model>, String> {
+    let vle = pure_vle(model, tau * tc)?;
+    let l = length * ANGSTROM;
+    Ok(match init {
+        InitSpec::Tanh { tc_factor } => PlanarInterface::from_tanh(&vle, n_grid, l, tc * tc_factor * KELVIN, false),
+        InitSpec::Pdgt => {
+            // `from_pdgt` chooses its own box length (max(100, 6 w_pdgt))
+            PlanarInterface::from_pdgt(&vle, n_grid, false).map_err(|e| format!("from_pdgt: {e}"))?
+        }
+        InitSpec::Previous { dtau } => {
+            let vle0 = pure_vle(model, (tau + dtau) * tc)?;
+            let prev = PlanarInterface::from_tanh(&vle0, n_grid, l, tc * KELVIN, false)
+                .solve(None)
+                .map_err(|e| format!("previous solution: {e}"))?;
+            PlanarInterface::from_tanh(&vle, n_grid, l, tc * KELVIN, false).set_density(&prev.profile.density, true)
+        }
+    })
+}
+
+/// Bulk vapour of a pore problem: T = tau * sum x_i T_c,i, p = p_rel * min_i p_sat,i(T) over the
+/// sub-critical components.
+pub fn pore_bulk(spec: &ModelSpec, model: &Arc<Model>, tau: f64, p_rel: f64, x: &[f64]) -> Result<State<Model>, String> {
+    let t = tau * dft_t_scale(spec, model, x)?;
+    let psat: Vec<f64> = PhaseEquilibrium::vapor_pressure(model, t * KELVIN)
+        .into_iter()
+        .flatten()
+        .map(|p| p.to_reduced())
+        .filter(|p| p.is_finite() && *p > 0.0)
+        .collect();
+    let pmin = psat.iter().cloned().fold(f64::INFINITY, f64::min);
+    if !pmin.is_finite() {
+        return Err("no sub-critical component".into());
+    }
+    let moles = Moles::from_reduced(Array1::from_vec(x.to_vec()));
+    let bulk = State::new_npt(
+        model,
+        t * KELVIN,
+        Pressure::from_reduced(p_rel * pmin),
+        &moles,
+        DensityInitialization::Vapor,
+    )
+    .map_err(|e| format!("bulk: {e}"))?;
+    if spec.n() > 1 && !bulk.is_stable(Default::default()).map_err(|e| format!("stability: {e}"))? {
+        return Err("bulk vapour unstable".into());
+    }
+    Ok(bulk)
+}
+
+pub fn pore_init(
+    bulk: &State<Model>,
+    pore: &PoreSpec,
+    density: Option<&Density<Array2<f64>>>,
+) -> Result<PoreProfile1D<Model>, String> {
+    pore.build().initialize(bulk, density, None).map_err(|e| format!("initialize: {e}"))
+}
+
+// ---------------------------------------------------------------------------------------
+// Oracle on one returned profile
+// ---------------------------------------------------------------------------------------
+/// The Euler-Lagrange residual recomputed by the harness from the residual *field* returned by
+/// `residual(false)`: rms over all grid values and bulk equations (independent of the norm
+/// used inside the solver).
+pub fn own_norm(res: &Array2<f64>, res_bulk: &Array1<f64>) -> f64 {
+    let s: f64 = res.iter().map(|x| x * x).sum::<f64>() + res_bulk.iter().map(|x| x * x).sum::<f64>();
+    (s / (res.len() + res_bulk.len()) as f64).sqrt()
+}
+
+/// residual, positivity, solver log. `what` prefixes messages. Returns false if residual() failed.
+pub fn check_returned(obs: &mut Obs, what: &str, p: &Profile, tol_last: f64) -> bool {
+    check_returned_known(obs, what, p, tol_last, None)
+}
+
+/// as `check_returned`; a residual above the tolerance is routed to the known finding `known`
+pub fn check_returned_known(obs: &mut Obs, what: &str, p: &Profile, tol_last: f64, known: Option<&str>) -> bool {
+    let (res, res_bulk, lib) = match p.residual(false) {
+        Ok(r) => r,
+        Err(e) => {
+            let msg = format!("{what}: solve returned Ok but residual() of the returned profile fails: {e}");
+            if antisym(p) {
+                obs.known_or_fail(ANTISYM, msg);
+            } else {
+                obs.fail(msg);
+            }
+            return false;
+        }
+    };
+    let own = own_norm(&res, &res_bulk);
+    worst("rms residual / tol_last", own / tol_last);
+    if debug() && own > 1.001 * tol_last {
+        let l = p.solver_log.as_ref().map(|l| (l.residual().len(), l.residual().last().copied(), l.solver().last().copied()));
+        eprintln!("DBG residual ratio {:.4} {what} tol={tol_last:e} own={own:e} lib={lib:e} log={l:?} res_bulk={res_bulk:?}", own / tol_last);
+    }
+    worst("residual(false).2 / tol_last", lib / tol_last);
+    obs.count();
+    if !(own <= 10.0 * tol_last && lib <= 10.0 * tol_last) {
+        let msg = format!(
+            "{what}: Euler-Lagrange residual of the returned profile (rms of the field {own:e}, residual(false).2 = {lib:e}) exceeds 10 x tol {tol_last:e}"
+        );
+        match known {
+            Some(id) => obs.known_or_fail(id, msg),
+            None => obs.fail(msg),
+        }
+    }
+    if let Some(log) = &p.solver_log {
+        let r = log.residual();
+        // the last entry is the residual that passed the convergence test (GMRES entries are
+        // always followed by the next outer residual)
+        if let (Some(&last), Some(&name)) = (r.last(), log.solver().last()) {
+            obs.ensure(name != "GMRES" && last < tol_last, || {
+                format!("{what}: solver_log ends with {name} residual {last:e}, tolerance {tol_last:e}")
+            });
+        } else {
+            obs.fail(format!("{what}: empty solver_log after Ok"));
+        }
+    } else {
+        obs.fail(format!("{what}: no solver_log after Ok"));
+    }
+    let rho = p.density.to_reduced();
+    let rho_max = rho.iter().cloned().fold(0.0, f64::max);
+    let mut bad = None;
+    for (r, v) in rho.iter().zip(p.external_potential.iter()) {
+        // * at the cut-off the library zeroes the residual and never updates the value (initial
+        //   guess: exp(-50) x bond integral, an FFT result of either sign at 1e-35);
+        // * bond integrals are FFT convolutions: where the exact value is below 1e-16 x its maximum
+        //   (segments without own wall potential deep inside a wall) the sign is noise; values
+        //   within 1e-20 x max(rho) of zero are treated as zero.
+        let frozen = *v + 1e-9 >= MAX_POTENTIAL;
+        let ok = r.is_finite() && (*r > 0.0 || frozen || r.abs() <= 1e-20 * rho_max);
+        if !ok && bad.is_none() {
+            bad = Some((*r, *v));
+        }
+    }
+    obs.count();
+    if let Some((r, v)) = bad {
+        let msg = format!(
+            "{what}: density {r:e} at a point with external potential {v} (not finite / not positive; max density {rho_max:e})"
+        );
+        // signature of POLAR: cylindrical geometry, bond integrals (heterosegmented chains), finite
+        // negative value below 5 % of the maximum density
+        let polar = matches!(p.grid, feos_dft::Grid::Polar(_))
+            && p.density.shape()[0] != p.dft.components()
+            && r.is_finite()
+            && r.abs() <= 5e-2 * rho_max;
+        if polar {
+            obs.known_or_fail(POLAR, msg);
+        } else {
+            obs.fail(msg);
+        }
+    }
+    true
+}
+
+/// default specification: bulk state unchanged by `solve`. Returns the largest relative drift.
+fn check_bulk_unchanged(obs: &mut Obs, what: &str, chain: &ChainSpec, before: &State<Model>, p: &Profile) -> f64 {
+    let a = before.partial_density.to_reduced();
+    let b = p.bulk.partial_density.to_reduced();
+    let t0 = before.temperature.to_reduced();
+    let mut drift: f64 = 0.0;
+    for i in 0..a.len() {
+        drift = drift.max(rel(a[i], b[i]));
+    }
+    // Picard and Newton leave rho_bulk alone when its residual is zero (x += 0, x *= exp(0), |x|);
+    // the rebuilt State (moles = rho * 1 A^3, rho = moles / 1 A^3) costs a few ulp.
+    if chain.has_anderson() {
+        worst("bulk density drift (chains with Anderson mixing)", drift);
+    } else {
+        worst("bulk density drift (Picard / Newton chains)", drift);
+    }
+    if drift > BULK_DRIFT {
+        let msg = format!(
+            "{what}: default specification but the bulk partial densities changed by {drift:e} (relative): {a} -> {b}"
+        );
+        if chain.has_anderson() {
+            // signature: Anderson mixing recombines (rho, rho_bulk) of earlier iterates with
+            // coefficients that sum to 1 only up to roundoff x cond; nothing restores rho_bulk
+            obs.known_or_fail(DRIFT, msg);
+        } else {
+            obs.fail(msg);
+        }
+    } else {
+        obs.count();
+    }
+    obs.close(&format!("{what}: bulk temperature unchanged"), t0, p.bulk.temperature.to_reduced(), 1e-14, 0.0);
+    obs.close(&format!("{what}: profile temperature unchanged"), t0, p.temperature.to_reduced(), 1e-14, 0.0);
+    drift
+}
+
+/// 90-10 width and mid-point position of a planar profile (total density)
+pub fn interface_geometry(p: &Profile) -> Option<(f64, f64)> {
+    let rho = p.density.to_reduced().sum_axis(AxisNd(0));
+    let z = p.grid.grids()[0];
+    let n = rho.len();
+    let (a, b) = (rho[0], rho[n - 1]);
+    if !((a - b).abs() > 1e-12) {
+        return None;
+    }
+    let cross = |f: f64| -> Option<f64> {
+        let target = b + f * (a - b);
+        for k in 1..n {
+            let (u, v) = (rho[k - 1] - target, rho[k] - target);
+            if u == 0.0 {
+                return Some(z[k - 1]);
+            }
+            if u * v < 0.0 {
+                return Some(z[k - 1] + (z[k] - z[k - 1]) * u / (u - v));
+            }
+        }
+        None
+    };
+    let (z9, z5, z1) = (cross(0.9)?, cross(0.5)?, cross(0.1)?);
+    Some(((z1 - z9).abs(), z5))
+}
+
+/// (distance of the interface from the nearer wall) / (90-10 width)
+pub fn wall_ratio(p: &Profile) -> f64 {
+    match interface_geometry(p) {
+        Some((w, z5)) if w > 0.0 => {
+            let l = p.grid.axes()[0].edges[p.density.shape()[1]];
+            z5.min(l - z5) / w
+        }
+        _ => 0.0,
+    }
+}
+
+/// per-segment amounts (the unit of `DFTSpecifications::Moles`)
+pub fn segment_moles(p: &Profile) -> Array1<f64> {
+    p.integrate_comp(&p.density).to_reduced()
+}
+
+/// rms of the density profile (scale of the residual)
+pub fn rho_rms(p: &Profile) -> f64 {
+    let r = p.density.to_reduced();
+    (r.iter().map(|x| x * x).sum::<f64>() / r.len() as f64).sqrt()
+}
+
+struct Outcome {
+    chain: ChainSpec,
+    /// observables of a converged solve: (name, value, scale, is an energy)
+    obs: Vec<(String, f64, f64, bool)>,
+    rho_rms: f64,
+    /// sum over segments of m_i x integral of |rho_projected - rho| (m_i >= 1)
+    int_res: f64,
+    profile: Profile,
+    wall_ratio: f64,
+    drift: f64,
+}
+
+/// Tolerances of the cross-chain comparison (absolute, for a pair of converged results a, b;
+/// I = int|res_a| + int|res_b| with res = rho_projected - rho of the returned profiles):
+///
+/// * energies (grand potential, surface / interfacial tension): `grand_potential_density`
+///   eliminates ln(rho) with the Euler-Lagrange equation, so the reported value differs from the
+///   functional of the returned density by T int rho ln(rho/rho_projected) ~ -T int res: a
+///   first-order term bounded by T*I with I weighted by the chain lengths m_i (measured
+///   <= 0.93 T*I over 1600 generated cases; CMP_K1 = 50 allowed). The functional
+///   itself is stationary: second-order term (kappa tol/rho)^2 with kappa <= 10 measured, 100
+///   allowed. Plus 1e-6 relative (DESIGN).
+/// * adsorbed amounts: first order, |dN| <= kappa*I with kappa the norm of the inverse linearised
+///   Euler-Lagrange operator (>= 1, large near capillary condensation / spinodals); CMP_K allowed.
+fn cmp_atol(a: &Outcome, b: &Outcome, t: f64, scale: f64, energy: bool) -> f64 {
+    let i = a.int_res + b.int_res;
+    let t_over_rho = a.chain.tol_last().max(b.chain.tol_last()) / a.rho_rms.min(b.rho_rms);
+    if energy {
+        CMP_K1 * t * i + ((CMP_K2 * t_over_rho).powi(2) + 1e-6) * scale
+    } else {
+        CMP_K * i + 1e-6 * scale
+    }
+}
+
+fn apply_pn(p: &mut Profile, pn: &PnSpec) -> Array1<f64> {
+    let seg = segment_moles(p);
+    match pn {
+        PnSpec::Moles { factor } => {
+            let target = &seg * *factor;
+            p.specification = Arc::new(DFTSpecifications::Moles { moles: target.clone() });
+            target
+        }
+        PnSpec::TotalMoles { factor } => {
+            let target = seg.sum() * factor;
+            p.specification = Arc::new(DFTSpecifications::TotalMoles { total_moles: target });
+            Array1::from_elem(1, target)
+        }
+        PnSpec::Equimolar => {
+            let target = seg.sum();
+            p.specification = DFTSpecifications::total_moles_from_profile(p);
+            Array1::from_elem(1, target)
+        }
+    }
+}
+
+/// Bound on |N_returned - N_spec| / N_spec from the residuals of the returned profile itself.
+/// The bulk equation of the specification says N_spec = N_proj * rho_b,new / rho_b with
+/// |rho_b,new - rho_b| = |res_bulk|; the field residual res = rho_proj - rho integrates to
+/// N_proj - N_returned. The library zeroes `res` where the external potential is at its cut-off
+/// but counts rho_proj of those points in the partition sum, so the field term is evaluated on a
+/// copy of the profile whose potential is lowered by 1e-6 there (changes rho_proj by < 1e-6
+/// relative). Both residuals are separately asserted to be below 10 x tol. Factor 2 and 1e-11
+/// cover roundoff; the sign convention of res_bulk does not matter.
+fn pn_bound(p: &Profile, i: Option<usize>, target: f64) -> Option<(f64, f64)> {
+    let (_, res_bulk, _) = p.residual(false).ok()?;
+    let mut q = p.clone();
+    q.external_potential.mapv_inplace(|v| if v + 1e-9 >= MAX_POTENTIAL { MAX_POTENTIAL - 1e-6 } else { v });
+    let (res, _, _) = q.residual(false).ok()?;
+    let pd = p.bulk.partial_density.to_reduced();
+    let rb: Array1<f64> = p.dft.component_index().mapv(|i| pd[i]);
+    let int_res = p.integrate_comp(&Density::from_reduced(res.mapv(f64::abs))).to_reduced();
+    // part of the field term that sits on frozen points
+    let frozen = {
+        let mut r = res.mapv(f64::abs);
+        for (x, v) in r.iter_mut().zip(p.external_potential.iter()) {
+            if *v + 1e-9 < MAX_POTENTIAL {
+                *x = 0.0;
+            }
+        }
+        p.integrate_comp(&Density::from_reduced(r)).to_reduced()
+    };
+    let (bulk_term, field_term, frozen_term) = match i {
+        Some(i) => ((res_bulk[i] / rb[i]).abs(), int_res[i] / target.abs(), frozen[i] / target.abs()),
+        None => (
+            res_bulk.iter().zip(rb.iter()).map(|(r, b)| (r / b).abs()).fold(0.0, f64::max),
+            int_res.sum() / target.abs(),
+            frozen.sum() / target.abs(),
+        ),
+    };
+    Some((2.0 * (bulk_term / (1.0 - bulk_term).max(0.5) + field_term) + 1e-11, frozen_term))
+}
+
+pub fn check(case: &Case, obs: &mut Obs) {
+    let spec = &case.spec;
+    obs.class(spec.label());
+    let model = match spec.build() {
+        Ok(m) => m,
+        Err(e) => {
+            obs.discard(format!("build:{}", e.chars().take(40).collect::<String>()));
+            return;
+        }
+    };
+    enum Built {
+        Planar(PlanarInterface<Model>),
+        Pore(PoreProfile1D<Model>),
+    }
+    let setup_failed = |obs: &mut Obs, kind: &str, e: String| {
+        if case.demand {
+            obs.fail(format!("lattice problem cannot be set up: {e}"));
+        } else {
+            obs.discard(format!("{kind} setup:{}", e.chars().take(30).collect::<String>()));
+        }
+    };
+    let built = match &case.problem {
+        Problem::Planar { tau, n_grid, length, init } => {
+            obs.class("planar");
+            obs.class(format!(
+                "init:{}",
+                match init {
+                    InitSpec::Tanh { tc_factor } if *tc_factor == 1.0 => "tanh",
+                    InitSpec::Tanh { .. } => "tanh-width",
+                    InitSpec::Pdgt => "pdgt",
+                    InitSpec::Previous { .. } => "previous",
+                }
+            ));
+            obs.class(format!("n_grid={n_grid}"));
+            match dft_tc(spec, &model, 0).and_then(|tc| planar_init(&model, tc, *tau, *n_grid, *length, init)) {
+                Ok(p) => Built::Planar(p),
+                Err(e) => return setup_failed(obs, "planar", e),
+            }
+        }
+        Problem::Pore { tau, p_rel, x, pore, prev } => {
+            obs.class("pore");
+            obs.class(pore.label());
+            obs.class(format!("n={}", spec.n()));
+            obs.class(format!("n_grid={}", pore.n_grid));
+            obs.class(if prev.is_some() { "init:previous" } else { "init:ideal-gas" });
+            let r = pore_bulk(spec, &model, *tau, *p_rel, x).and_then(|bulk| {
+                let density = match prev {
+                    None => None,
+                    Some(f) => {
+                        let b0 = pore_bulk(spec, &model, *tau, (*p_rel * *f).min(0.9), x)?;
+                        let p0 = pore_init(&b0, pore, None)?.solve(None).map_err(|e| format!("previous solution: {e}"))?;
+                        Some(p0.profile.density.clone())
+                    }
+                };
+                pore_init(&bulk, pore, density.as_ref())
+            });
+            match r {
+                Ok(p) => Built::Pore(p),
+                Err(e) => return setup_failed(obs, "pore", e),
+            }
+        }
+    };
+    let bulk0 = match &built {
+        Built::Planar(p) => p.profile.bulk.clone(),
+        Built::Pore(p) => p.profile.bulk.clone(),
+    };
+    let t0 = bulk0.temperature.to_reduced();
+
+    // ---- solve with every chain from the same initial profile
+    let mut outcomes: Vec<Outcome> = vec![];
+    for (k, chain) in case.chains.iter().enumerate() {
+        let solver = chain.build();
+        let what = format!("chain {k} [{}]", chain.label());
+        obs.class(format!("chain:{}", chain.last_label()));
+        obs.class(format!("stages={}", chain.stages.len()));
+        let res: Result<(Profile, Vec<(String, f64, f64, bool)>), String> = match &built {
+            Built::Planar(p0) => p0.clone().solve(solver.as_ref()).map_err(|e| e.to_string()).map(|p| {
+                let g = p.surface_tension.map(|g| g.to_reduced()).unwrap_or(f64::NAN);
+                (p.profile, vec![("surface tension".to_string(), g, g.abs(), true)])
+            }),
+            Built::Pore(p0) => p0.clone().solve(solver.as_ref()).map_err(|e| e.to_string()).map(|p| {
+                let om = p.grand_potential.map(|g| g.to_reduced()).unwrap_or(f64::NAN);
+                let it = p.interfacial_tension.map(|g| g.to_reduced()).unwrap_or(f64::NAN);
+                // Omega + pV cancels for weak adsorption: compare on the scale of its terms
+                let pv = (p.profile.bulk.pressure(Contributions::Total) * p.profile.volume()).to_reduced();
+                let mut v = vec![
+                    ("grand potential".to_string(), om, om.abs(), true),
+                    ("interfacial tension (solvation free energy)".to_string(), it, om.abs().max(pv.abs()), true),
+                ];
+                for (i, n) in p.profile.moles().to_reduced().iter().enumerate() {
+                    v.push((format!("adsorbed amount [{i}]"), *n, n.abs(), false));
+                }
+                (p.profile, v)
+            }),
+        };
+        match res {
+            Err(e) => {
+                let short: String = e.chars().take(28).collect();
+                obs.class(format!("err:{short}"));
+                if case.demand {
+                    obs.fail(format!("{what}: success demanded on the lattice, got Err: {e}"));
+                }
+            }
+            Ok((profile, observables)) => {
+                obs.class("ok");
+                obs.class(format!("ok:{}", chain.last_label()));
+                if !check_returned(obs, &what, &profile, chain.tol_last()) {
+                    continue;
+                }
+                let drift = check_bulk_unchanged(obs, &what, chain, &bulk0, &profile);
+                let mut finite = true;
+                for (name, v, _, _) in &observables {
+                    obs.count();
+                    if !v.is_finite() {
+                        finite = false;
+                        let msg = format!("{what}: solve returned Ok but {name} is {v}");
+                        if antisym(&profile) {
+                            obs.known_or_fail(ANTISYM, msg);
+                        } else {
+                            obs.fail(msg);
+                        }
+                    }
+                }
+                if !finite {
+                    continue;
+                }
+                outcomes.push(Outcome {
+                    chain: chain.clone(),
+                    obs: observables,
+                    rho_rms: rho_rms(&profile),
+                    int_res: profile
+                        .residual(false)
+                        .map(|r| {
+                            let i = profile.integrate_comp(&Density::from_reduced(r.0.mapv(f64::abs))).to_reduced();
+                            (i * &*profile.dft.m()).sum()
+                        })
+                        .unwrap_or(f64::INFINITY),
+                    wall_ratio: match &built {
+                        Built::Planar(p0) => {
+                            // a chain may lose the interface (uniform phase: also stationary, gamma = 0)
+                            let r = profile.density.to_reduced();
+                            let n = r.shape()[1];
+                            let (rl, rv) = (p0.vle.liquid().density.to_reduced(), p0.vle.vapor().density.to_reduced());
+                            if (r[[0, 0]] / rl - 1.0).abs() < 0.02 && (r[[0, n - 1]] / rv - 1.0).abs() < 0.02 {
+                                wall_ratio(&profile)
+                            } else {
+                                obs.class("planar: interface lost (uniform phase)");
+                                0.0
+                            }
+                        }
+                        Built::Pore(_) => f64::INFINITY,
+                    },
+                    profile,
+                    drift,
+                });
+            }
+        }
+    }
+
+    // ---- observables agree across chains (same problem, same initial profile)
+    let mut compared = 0;
+    let mut compared_sharp = 0;
+    for i in 0..outcomes.len() {
+        for j in i + 1..outcomes.len() {
+            let (a, b) = (&outcomes[i], &outcomes[j]);
+            if a.chain == b.chain {
+                continue;
+            }
+            if a.drift > 1e-9 || b.drift > 1e-9 {
+                obs.class("bulk drifted: comparison skipped");
+                continue;
+            }
+            // a planar interface closer to a wall than WALL_RATIO widths feels its mirror image:
+            // the surface tension then depends on where the (neutral) interface position ended up
+            if a.wall_ratio < WALL_RATIO || b.wall_ratio < WALL_RATIO {
+                obs.class("planar: interface too close to the wall, comparison skipped");
+                continue;
+            }
+            // pores below the critical pore size have several stationary points (empty / filled /
+            // layered): chains may legitimately end on different branches
+            let gross = a
+                .obs
+                .iter()
+                .zip(&b.obs)
+                .any(|(oa, ob)| !oa.3 && rel(oa.1, ob.1) > BRANCH_GAP);
+            if gross {
+                obs.class("pore: chains on different branches (multistable), comparison skipped");
+                continue;
+            }
+            compared += 1;
+            // Generated pore problems can have several stationary points that differ by far less
+            // than BRANCH_GAP (two profiles with residual 1e-15 and N differing by 1.7e-4 were
+            // found in a cylindrical pore): agreement is asserted for planar interfaces and on the
+            // lattice only, and recorded as a statistic for generated pores.
+            let asserted = case.demand || matches!(built, Built::Planar(_));
+            obs.class(if asserted { "pair compared (asserted)" } else { "pair compared (statistic only)" });
+            let mut sharp = asserted;
+            for (oa, ob) in a.obs.iter().zip(&b.obs) {
+                let scale = oa.2.max(ob.2);
+                let atol = cmp_atol(a, b, t0, scale, oa.3);
+                let d = (oa.1 - ob.1).abs();
+                sharp &= atol <= 1e-3 * scale;
+                let key = oa.0.split(' ').next().unwrap();
+                worst(&format!("cross-chain: {key}: diff / tolerance"), d / atol);
+                let i = a.int_res + b.int_res;
+                if oa.3 {
+                    worst(&format!("cross-chain: {key}: diff / (T int|res|)"), (d - 1e-9 * scale).max(0.0) / (t0 * i));
+                } else {
+                    worst(&format!("cross-chain: {key}: kappa = diff / int|res|"), (d - 1e-9 * scale).max(0.0) / i);
+                }
+                if debug() {
+                    eprintln!(
+                        "DBG cmp {key} prob={} d/scale={:.3e} atol/scale={:.3e} tols=({:.1e},{:.1e}) rho_rms={:.3e} wall_ratio=({:.2},{:.2}) [{}] vs [{}]",
+                        serde_json::to_string(&case.problem).unwrap().replace(' ', ""), d / scale, atol / scale, a.chain.tol_last(), b.chain.tol_last(), a.rho_rms, a.wall_ratio, b.wall_ratio, a.chain.label(), b.chain.label()
+                    );
+                }
+                obs.count();
+                if !(d <= atol) && !asserted {
+                    obs.class(format!("pore pair beyond tolerance, not asserted: {key}"));
+                }
+                if !(d <= atol) && asserted {
+                    obs.fail(format!(
+                        "{} differs between [{}] and [{}]: {:e} vs {:e} (diff {d:e} > tolerance {atol:e}; int|res| = {:e} and {:e})",
+                        oa.0, a.chain.label(), b.chain.label(), oa.1, ob.1, a.int_res, b.int_res
+                    ));
+                }
+            }
+            if sharp {
+                compared_sharp += 1;
+            }
+        }
+    }
+    if compared > 0 {
+        obs.class("chains compared");
+    }
+    if compared_sharp > 0 {
+        obs.class("chains compared (tolerance <= 1e-3)");
+        obs.nontrivial();
+    }
+
+    // ---- particle-number specifications
+    if let Some((pn, chain)) = &case.pn {
+        let solver = chain.build();
+        let tol = chain.tol_last();
+        let label = match pn {
+            PnSpec::Moles { factor } => format!("Moles x{factor}"),
+            PnSpec::TotalMoles { factor } => format!("TotalMoles x{factor}"),
+            PnSpec::Equimolar => "fix_equimolar_surface".into(),
+        };
+        obs.class(format!("pn:{}", label.split(' ').next().unwrap()));
+        let what = format!("{label} [{}]", chain.label());
+        // start: the first converged ChemicalPotential profile; Equimolar: the initial profile
+        let start: Option<Profile> = match (pn, &built) {
+            (PnSpec::Equimolar, Built::Planar(p0)) => Some(p0.profile.clone()),
+            (PnSpec::Equimolar, _) => None,
+            _ => outcomes.iter().find(|o| o.drift <= 1e-9).map(|o| o.profile.clone()),
+        };
+        let run: Option<(Result<Profile, String>, Array1<f64>)> = start.map(|mut s| {
+            let target = apply_pn(&mut s, pn);
+            let r = match &built {
+                Built::Planar(p0) => {
+                    let mut p = p0.clone();
+                    p.profile = s;
+                    p.solve(solver.as_ref()).map(|p| p.profile).map_err(|e| e.to_string())
+                }
+                Built::Pore(p0) => {
+                    let mut p = p0.clone();
+                    p.profile = s;
+                    p.solve(solver.as_ref()).map(|p| p.profile).map_err(|e| e.to_string())
+                }
+            };
+            (r, target)
+        });
+        let total = !matches!(pn, PnSpec::Moles { .. });
+        match run {
+            None => obs.class("pn: no converged start profile"),
+            Some((Err(e), _)) => {
+                obs.class(format!("pn:err:{}", e.chars().take(28).collect::<String>()));
+                // success is demanded on the lattice and where the start profile already satisfies
+                // the specification to solver accuracy (factor 1, tolerance 10x coarser than the
+                // one the start profile was converged to: every solver tests the residual first)
+                let trivially_satisfied = matches!(pn, PnSpec::Moles { factor } | PnSpec::TotalMoles { factor } if *factor == 1.0)
+                    && outcomes.first().map(|o| o.chain.tol_last() <= 0.1 * tol).unwrap_or(false);
+                if case.demand || trivially_satisfied {
+                    obs.known_or_fail(
+                        F3,
+                        format!("{what}: not accepted although the profile already contains the specified amount (or: lattice problem): {e}"),
+                    );
+                }
+            }
+            Some((Ok(p), target)) => {
+                obs.class("pn:ok");
+                // `Moles` on a heterosegmented functional iterates one bulk density per segment,
+                // but solve() rebuilds the bulk State with one density per component (the last
+                // segment wins, profile/mod.rs:506-511): the returned profile is then not a
+                // stationary point for its own bulk state
+                let hetero_moles = !total && p.density.shape()[0] != p.dft.components();
+                if hetero_moles {
+                    obs.class("pn: Moles on a heterosegmented functional");
+                }
+                if check_returned_known(obs, &what, &p, tol, if hetero_moles { Some(HETERO) } else { None }) {
+                    let seg = segment_moles(&p);
+                    let molecular = seg.len() == p.dft.components();
+                    let mut sharp = true;
+                    let idx: Vec<Option<usize>> = if total { vec![None] } else { (0..seg.len()).map(Some).collect() };
+                    for i in idx {
+                        let (have, want) = match i {
+                            None => (seg.sum(), target[0]),
+                            Some(i) => (seg[i], target[i]),
+                        };
+                        let Some((bound, frozen)) = pn_bound(&p, i, want) else { continue };
+                        if frozen > 1e-8 {
+                            obs.class("pn: > 1e-8 of the amount sits on frozen cut-off points (counted in z, not in N)");
+                        }
+                        sharp &= bound < 1e-6;
+                        worst("pn: |N - N_spec|/N_spec (cases with bound < 1e-6)", if bound < 1e-6 { rel(have, want) } else { 0.0 });
+                        worst("pn: deviation / bound", rel(have, want) / bound);
+                        obs.count();
+                        if !((have - want).abs() <= bound * have.abs().max(want.abs())) {
+                            // With the partition sum integrated after the multiplication with rho_bulk
+                            // (F3) the bulk equation has the spurious fixed point rho_bulk = 1/A^3:
+                            // Anderson mixing can reach it and return Ok with ~1e5 x the amount.
+                            obs.known_or_fail(
+                                F3,
+                                format!("{what}: the returned profile contains {have:e} (index {i:?}) but {want:e} was specified (bound {bound:e})"),
+                            );
+                            continue;
+                        }
+                        // heterosegmented functionals count segments in the specification but
+                        // molecules in moles(): the getters are compared for molecular models only
+                        if molecular {
+                            let getter = match i {
+                                None => p.total_moles().to_reduced(),
+                                Some(i) => p.moles().to_reduced()[i],
+                            };
+                            obs.close(&format!("{what}: moles()/total_moles() {i:?} equals the specified amount"), getter, want, bound, 0.0);
+                        }
+                    }
+                    obs.ensure((p.bulk.temperature.to_reduced() - t0).abs() <= 1e-14 * t0, || {
+                        format!("{what}: bulk temperature changed")
+                    });
+                    let iterated = p.solver_log.as_ref().map(|l| l.residual().len() > 1).unwrap_or(false);
+                    if iterated {
+                        obs.class("pn:ok:iterated");
+                    }
+                    obs.class(if sharp { "pn:ok:bound<1e-6" } else { "pn:ok:bound>=1e-6 (dilute bulk: tolerance does not resolve rho_bulk)" });
+                    if sharp {
+                        obs.nontrivial();
+                    }
+                }
+            }
+        }
+    }
+}
+
+/// Relative change of the bulk densities allowed under the default specification: the rebuilt
+/// bulk State costs a few ulp (measured <= 5e-16 for Picard / Newton chains).
+const BULK_DRIFT: f64 = 1e-13;
+/// minimum (distance of the interface from the nearer wall) / (90-10 width) for the surface
+/// tension to be compared between chains
+const WALL_RATIO: f64 = 3.0;
+/// adsorbed amounts differing by more than this are different stationary points
+const BRANCH_GAP: f64 = 1e-2;
+const CMP_K: f64 = 1e3;
+const CMP_K2: f64 = 1e2;
+const CMP_K1: f64 = 50.0;
+
+// ---------------------------------------------------------------------------------------
+// Lattice
+// ---------------------------------------------------------------------------------------
+fn shipped(file: usize, name: &str) -> Value {
+    POOLS.pcsaft[file]
+        .1
+        .iter()
+        .find(|r| r["identifier"]["name"].as_str() == Some(name))
+        .unwrap_or_else(|| panic!("record {name} missing"))
+        .clone()
+}
+
+pub fn lattice_specs() -> Vec<(String, ModelSpec)> {
+    let pc = |name: &str| ModelSpec {
+        family: Family::PcSaftFunctional,
+        pure: vec![shipped(0, name)],
+        binary: vec![],
+        seg: None,
+        opts: Opts::default(),
+        source: "shipped:gross2001.json".into(),
+    };
+    let pets = ModelSpec {
+        family: Family::PetsFunctional,
+        pure: vec![json!({"identifier": {"name": "argon-like", "cas": "0-00-0"}, "molarweight": 39.948,
+            "model_record": {"sigma": 3.4, "epsilon_k": 120.0}})],
+        binary: vec![],
+        seg: None,
+        opts: Opts::default(),
+        source: "lattice".into(),
+    };
+    vec![("propane".into(), pc("propane")), ("butane".into(), pc("butane")), ("pets".into(), pets)]
+}
+
+fn lattice() -> Vec<Case> {
+    let mut v = vec![];
+    let newton = ChainSpec {
+        stages: vec![
+            StageSpec::Anderson { log: true, damping: 0.15, mmax: 100, max_iter: 50, tol: 1e-5 },
+            StageSpec::Newton { log: false, max_iter: 50, gmres: 200, tol: 1e-11 },
+        ],
+    };
+    let picard = ChainSpec {
+        stages: vec![
+            StageSpec::Anderson { log: true, damping: 0.15, mmax: 100, max_iter: 50, tol: 1e-5 },
+            StageSpec::Picard { log: false, damping: None, max_iter: 500, tol: 1e-9 },
+        ],
+    };
+    let anderson = ChainSpec {
+        stages: vec![StageSpec::Anderson { log: true, damping: 0.1, mmax: 10, max_iter: 300, tol: 1e-10 }],
+    };
+    for (_, spec) in lattice_specs() {
+        for tau in [0.6, 0.7, 0.8, 0.9] {
+            for (k, pn) in [
+                PnSpec::TotalMoles { factor: 1.0 },
+                PnSpec::Moles { factor: 1.0 },
+                PnSpec::TotalMoles { factor: 1.002 },
+                PnSpec::Equimolar,
+            ]
+            .into_iter()
+            .enumerate()
+            {
+                v.push(Case {
+                    spec: spec.clone(),
+                    problem: Problem::Planar { tau, n_grid: 512, length: 150.0, init: InitSpec::Tanh { tc_factor: 1.0 } },
+                    chains: match k {
+                        0 => vec![ChainSpec::default_solver(), newton.clone()],
+                        1 => vec![ChainSpec::default_solver(), picard.clone()],
+                        _ => vec![ChainSpec::default_solver()],
+                    },
+                    pn: Some((pn, ChainSpec::default_solver())),
+                    demand: true,
+                });
+            }
+            for (geom, size) in [(GeomSpec::Slit, 30.0), (GeomSpec::Sphere, 20.0)] {
+                for (k, pn) in [PnSpec::Moles { factor: 1.0 }, PnSpec::Moles { factor: 1.02 }, PnSpec::TotalMoles { factor: 0.995 }]
+                    .into_iter()
+                    .enumerate()
+                {
+                    v.push(Case {
+                        spec: spec.clone(),
+                        problem: Problem::Pore {
+                            tau,
+                            p_rel: 0.2,
+                            x: vec![1.0],
+                            pore: PoreSpec {
+                                geom,
+                                size,
+                                wall: WallSpec::LJ93 { sigma_ss: 3.0, epsilon_k_ss: 10.0, rho_s: 0.08 },
+                                n_grid: 512,
+                            },
+                            prev: None,
+                        },
+                        chains: match k {
+                            0 => vec![ChainSpec::default_solver(), newton.clone()],
+                            1 => vec![ChainSpec::default_solver(), picard.clone()],
+                            _ => vec![ChainSpec::default_solver(), anderson.clone()],
+                        },
+                        pn: Some((pn, ChainSpec::default_solver())),
+                        demand: true,
+                    });
+                }
+            }
+        }
+    }
+    v
+}
+
+const PART: PartCfg = PartCfg {
+    name: "sampled",
+    genome_len: 160,
+    cases_quick: 160,
+    cases_thorough: 16_000,
+    panic: PanicPolicy::Count,
+};
+
+pub fn run(ctx: &Ctx) {
+    ctx.set_rule("lattice: {propane, butane (PC-SAFT functional, gross2001), argon-like PeTS} x T/Tc in {0.6,0.7,0.8,0.9} x {planar interface 512 points / 150 A from tanh; LJ93 slit 30 A and spherical pore 20 A at p/p_sat = 0.2}, default solver (+ Anderson>Newton, Anderson>Picard), each followed by a particle-number solve (Moles / TotalMoles with the current and a perturbed amount, fix_equimolar_surface); success demanded. sampled: proptest genomes -> (functional family of {PcSaft, Pets, GcPcSaft (acyclic, <= 6 segments), SaftVRQMie}Functional, records shipped/perturbed/random, pure for planar, 1-2 components for pores, FMT version and options) x (planar: T/Tc in [0.5,0.95], 256-2048 points, 60-200 A, initial profile tanh / tanh with other width / pDGT / previous solution at a neighbouring T | pore: slit/cylinder/sphere, LJ93/Steele/HardWall/SimpleLJ93(slit), size 8-60 A, bulk vapour at p = [0.05,0.8] x lowest pure p_sat, ideal-gas or previous-solution initial density) x 2-3 solver chains (default or 1-3 stages of Picard(log, line search | damping 0.01-0.3) / Anderson(log, mmax 5-100, damping 0.05-0.3) / Newton(log, GMRES 50-300), stage tolerances 1e-5..1e-8, last 1e-8..1e-11, 15 % short last stages) x optional particle-number specification (Moles / TotalMoles x {1, 1.002, 0.995, 1.02} applied to the converged profile, or fix_equimolar_surface from the initial profile). Non-trivial: two different chains converged on the same problem and were compared with a tolerance <= 1e-3, or a particle-number solve returned Ok with a deviation bound < 1e-6. Distinct by hash of the canonical case JSON.");
+    ctx.assume("Euler-Lagrange residual of a returned profile: rms of the residual field of residual(false) recomputed by the harness and residual(false).2 both <= 10 x tolerance of the last stage (the solver stops below 1 x tol; the profile is re-evaluated after the bulk state was rebuilt)");
+    ctx.assume("density finite everywhere and > 0 wherever the external potential is below the cut-off 50 (frozen points keep the initial guess, whose sign is FFT noise at 1e-35)");
+    ctx.assume("cross-chain agreement: |u-v| <= (1e-6 + 1e3 * tol_last / rms(rho)) x scale (measured amplification kappa <= 10); planar comparisons only when the interface is at least 3 widths (90-10) from both walls (mirror boundary conditions); pore results whose adsorbed amounts differ by more than 1 % are different stationary points (hysteresis) and are not compared; interfacial tension compared on the scale max(|Omega|, |pV|)");
+    ctx.assume("default specification: bulk partial densities unchanged to 1e-13 (relative), temperature to 1e-14");
+    ctx.assume("particle-number specifications: |N - N_spec|/N_spec <= 2 (|res_bulk|/rho_bulk + int|res|/N_spec) + 1e-11 with the residuals of the returned profile (an identity of the bulk equation, not a fitted tolerance); success demanded only from profiles that already satisfy the specification or on the lattice");
+    ctx.assume("residual() reuses the library's Euler-Lagrange operator (validated by C17)");
+    ctx.run_lattice("lattice", lattice(), PanicPolicy::Violation, false, &check);
+    ctx.run_sampled(&PART, &decode, &check);
+    ctx.extra("measured_worst", worst_json());
+}
+
+pub fn replay(ctx: &Ctx, _part: &str, case: &Value) -> bool {
+    ctx.replay_case::<Case>(case, &check)
 }
